@@ -73,7 +73,126 @@ func schedOrDash(s string) string {
 	return s
 }
 
+
+// mergeAll: every interleaving of the token strings a and b (each keeps its own order).
+func mergeAll(a, b string) []string {
+	var out []string
+	var rec func(pre []byte, i, j int)
+	rec = func(pre []byte, i, j int) {
+		if i == len(a) && j == len(b) {
+			out = append(out, string(pre))
+			return
+		}
+		if i < len(a) {
+			rec(append(append([]byte(nil), pre...), a[i]), i+1, j)
+		}
+		if j < len(b) {
+			rec(append(append([]byte(nil), pre...), b[j]), i, j+1)
+		}
+	}
+	rec(nil, 0, 0)
+	return out
+}
+
+// dirSeqs: token strings of one goroutine for n loop iterations: each iteration either runs through
+// (step) or its Write stays in progress (hold) until the release token that follows it.
+func dirSeqs(step, hold, rel byte, n int) []string {
+	out := []string{""}
+	for i := 0; i < n; i++ {
+		var next []string
+		for _, p := range out {
+			next = append(next, p+string(step), p+string(hold)+string(rel))
+		}
+		out = next
+	}
+	return out
+}
+
+// sample: at most k elements, chosen by r (all of them if there are no more than k).
+func sample(r *vc.Rand, xs []string, k int) []string {
+	if len(xs) <= k {
+		return xs
+	}
+	out := make([]string, 0, k)
+	for i := 0; i < k; i++ {
+		out = append(out, xs[r.Intn(len(xs))])
+	}
+	return out
+}
+
+// encSeqs: token strings over u (next event), U (next event, its tunnel Write stays in progress) and
+// w (that Write completes) of length n; U only while no write is in progress, w only while one may be.
+func encSeqs(n int) []string {
+	var out []string
+	var rec func(pre []byte, open bool)
+	rec = func(pre []byte, open bool) {
+		if len(pre) == n {
+			out = append(out, string(pre))
+			return
+		}
+		rec(append(append([]byte(nil), pre...), 'u'), open)
+		if open {
+			rec(append(append([]byte(nil), pre...), 'w'), false)
+		} else {
+			rec(append(append([]byte(nil), pre...), 'U'), true)
+		}
+	}
+	rec(nil, false)
+	return out
+}
+
+// withHolds turns some tokens of a plain schedule into their slow-write variant and inserts the
+// release token somewhere later (or leaves it to the completion of the run).
+func withHolds(r *vc.Rand, sc string, up map[byte]byte, rel map[byte]byte) string {
+	if sc == "-" {
+		return sc
+	}
+	b := []byte(sc)
+	var out []byte
+	pendingRel := map[int][]byte{}
+	for i, c := range b {
+		out = append(out, pendingRel[i]...)
+		if h, ok := up[c]; ok && r.Intn(4) == 0 {
+			out = append(out, h)
+			if r.Intn(5) != 0 {
+				at := i + 1 + r.Intn(len(b)-i)
+				pendingRel[at] = append(pendingRel[at], rel[c])
+			}
+		} else {
+			out = append(out, c)
+		}
+	}
+	out = append(out, pendingRel[len(b)]...)
+	return string(out)
+}
+
 // ---------------------------------------------------------------- TCP generators
+
+// kind pairs (A = local application side, B = tunnel side); the production shape — a socket with
+// CloseWrite against iocopy.NewReadWriteCloser(conn, conn, closeFn) — is the most frequent one,
+// every other combination of the four kinds follows in rotation.
+var kindPairs = func() [][2]string {
+	ks := []string{"cw", "same", "split", "none"}
+	var out [][2]string
+	for _, a := range ks {
+		for _, b := range ks {
+			out = append(out, [2]string{a, b}, [2]string{"cw", "same"})
+		}
+	}
+	return out
+}()
+
+var kindCounter int
+
+func tcpLine(a, b, sc string) string {
+	kp := kindPairs[kindCounter%len(kindPairs)]
+	kindCounter++
+	return fmt.Sprintf("tcp A %s %s B %s %s s %s", kp[0], a, kp[1], b, sc)
+}
+
+func tcpLineK(ka, a, kb, b, sc string) string {
+	return fmt.Sprintf("tcp A %s %s B %s %s s %s", ka, a, kb, b, sc)
+}
 
 func genTCP(rn *runner, r *vc.Rand, thorough bool) {
 	type shape struct {
@@ -102,9 +221,25 @@ func genTCP(rn *runner, r *vc.Rand, thorough bool) {
 				for i, c := range b.chunks { // distinct payloads per direction
 					bl[i] = strings.ReplaceAll(c, "6", "7")
 				}
-				rn.add(fmt.Sprintf("tcp A %s B %s s %s", epStr(a.tail, a.fused, -1, false, a.chunks),
+				rn.add(tcpLine(epStr(a.tail, a.fused, -1, false, a.chunks),
 					epStr(b.tail, b.fused, -1, false, bl), sc), "tcp:interleave-all")
 			}
+		}
+	}
+	// (1c) every pair of endpoint kinds x every interleaving, for the half-close orders that matter: one side
+	// reaches EOF first while the other still has data to send (then the reverse), with and without slow Writes
+	for _, ka := range []string{"cw", "same", "split", "none"} {
+		for _, kb := range []string{"cw", "same", "split", "none"} {
+			a := epStr("eof", false, -1, false, []string{"6162"})
+			b := epStr("eof", false, -1, false, []string{"7172", "7374"})
+			for _, sc := range interleavings('a', 'b', 2, 3) {
+				rn.add(tcpLineK(ka, a, kb, b, sc), "tcp:kinds-all")
+				rn.add(tcpLineK(ka, b, kb, a, strings.Map(func(r rune) rune { return 'a' + 'b' - r }, sc)), "tcp:kinds-all")
+			}
+			for _, sc := range []string{"aaBbyb", "Aaxbbab", "aAxaBbybb", "bBaay"} {
+				rn.add(tcpLineK(ka, a, kb, b, sc), "tcp:kinds-all")
+			}
+			rn.add(tcpLineK(ka, epStr("err", true, -1, false, []string{"6162", "63"}), kb, epStr("eof", false, -1, false, []string{"7172", "73", "74"}), "aabbbb"), "tcp:kinds-all")
 		}
 	}
 	// (2) faults: refused writes at every index, full close (writes refused once the side's tail was seen)
@@ -133,13 +268,47 @@ func genTCP(rn *runner, r *vc.Rand, thorough bool) {
 		}
 		a, na := mk()
 		b, nb := mk()
-		rn.add(fmt.Sprintf("tcp A %s B %s s %s", a, b, randSched(r, 'a', 'b', na+1, nb+1)), "tcp:faults-random")
+		sc := randSched(r, 'a', 'b', na+1, nb+1)
+		if i%2 == 1 {
+			sc = withHolds(r, sc, map[byte]byte{'a': 'A', 'b': 'B'}, map[byte]byte{'a': 'x', 'b': 'y'})
+		}
+		rn.add(tcpLine(a, b, sc), "tcp:faults-random")
+	}
+	// (2b) slow sinks: a Write of one direction stays in progress (the sink reads the relay's buffer only
+	// when it completes) while the other direction runs, half-closes, finishes, gets refused
+	type pair struct{ a, b string; na, nb int }
+	pairs := []pair{
+		{epStr("eof", false, -1, true, []string{"6162", "63"}), epStr("eof", false, -1, false, []string{"7172"}), 3, 2},
+		{epStr("err", true, -1, false, []string{"6162", "63"}), epStr("eof", false, 1, true, []string{"7172", "73"}), 3, 3},
+	}
+	if thorough {
+		pairs = append(pairs,
+			pair{epStr("eof", true, 1, false, []string{"61", "6263"}), epStr("err", false, -1, true, []string{"71", "-", "72"}), 3, 4})
+	}
+	// a chunk larger than the copy buffer: the second piece is read while the Write of the first is still in progress elsewhere
+	for _, sc := range []string{"AbBxya", "ABxyAbxb", "AbbbxAx"} {
+		rn.add(tcpLine(epStr("eof", false, -1, false, []string{"z40000x3"}),
+			epStr("eof", false, -1, false, []string{"7172", "z33000x9"}), sc), "tcp:slow-write")
+	}
+	for _, p := range pairs {
+		for _, sa := range dirSeqs('a', 'A', 'x', p.na) {
+			for _, sb := range dirSeqs('b', 'B', 'y', p.nb) {
+				all := mergeAll(sa, sb)
+				k := 12
+				if thorough {
+					k = 120
+				}
+				for _, sc := range sample(r, all, k) {
+					rn.add(tcpLine(p.a, p.b, sc), "tcp:slow-write")
+				}
+			}
+		}
 	}
 	// (3) buffer boundary: chunks around the 32 KiB copy buffer are handed out in pieces
 	for _, sz := range []int{32767, 32768, 32769, 70000} {
 		a := epStr("eof", false, -1, false, []string{fmt.Sprintf("z%dx%d", sz, sz%251), "0102"})
 		b := epStr("eof", sz%2 == 0, -1, false, []string{"aabb", fmt.Sprintf("z%dx7", sz/2)})
-		rn.add(fmt.Sprintf("tcp A %s B %s s %s", a, b, vc.Pick(r, []string{"-", "ab", "bbbbaaaa", "abababab"})), "tcp:buffer-boundary")
+		rn.add(tcpLine(a, b, vc.Pick(r, []string{"-", "ab", "bbbbaaaa", "abababab"})), "tcp:buffer-boundary")
 	}
 }
 
@@ -364,6 +533,48 @@ func genUDP(rn *runner, r *vc.Rand, thorough bool) {
 			}
 		}
 	}
+	// (5b) slow tunnel: a flush Write stays in progress (the tunnel reads the batch buffer only when the
+	// Write completes) x datagram arrival x the next flush trigger (tick / EOF / read error)
+	type encCase struct {
+		evs          []string
+		utail, ttail string
+		tds          []string
+		full         bool
+	}
+	encCases := []encCase{
+		{[]string{"41414141", "t", "42424242"}, "eof", "hold", nil, true},
+		{[]string{"41414141", "t", "-", "4242", "t"}, "hold", "eof", []string{"78"}, true},
+		{[]string{"4141", "4242", "t", "434343434343", "t"}, "err", "hold", nil, thorough},
+	}
+	for _, ec := range encCases {
+		seqs := encSeqs(len(ec.evs) + 2)
+		if !ec.full {
+			seqs = sample(r, seqs, 40)
+		}
+		for _, sc := range seqs {
+			if !strings.Contains(sc, "U") {
+				continue
+			}
+			rn.add(udpLine(ec.utail, ec.evs, ec.ttail, false, ec.tds, uncut, "-", nil, sc), "udp:slow-tunnel-write")
+		}
+	}
+	// ... with the tunnel->UDP goroutine running in between
+	for _, sc := range sample(r, mergeAll("uUuwu", "tTvt"), map[bool]int{false: 40, true: 126}[thorough]) {
+		rn.add(udpLine("eof", []string{"41414141", "t", "42424242"}, "eof", false, []string{"78", "797a"}, uncut, "-", []int{3}, sc), "udp:slow-tunnel-write")
+	}
+	// half-full flush of the main loop in progress, then more datagrams, a tick, the end
+	bigEv := []string{"z60000x1", "z60000x2", "z60000x3", "6162", "t"}
+	for _, sc := range []string{"uuUuw", "uuUwuu", "uuUuuwu", "uUuuwuu"} {
+		rn.add(udpLine("eof", bigEv, "hold", false, nil, uncut, "-", nil, sc), "udp:slow-tunnel-write")
+	}
+	// (5c) slow UDP socket: the first Write of a tunnel->UDP iteration stays in progress
+	for _, st := range dirSeqs('t', 'T', 'v', 3) {
+		for _, ttail := range []string{"eof", "err"} {
+			for _, sc := range sample(r, mergeAll(st, "uu"), map[bool]int{false: 6, true: 60}[thorough]) {
+				rn.add(udpLine("hold", []string{"6162"}, ttail, false, []string{"78", "797a", "7b"}, 8, "-", []int{3, 4}, sc), "udp:slow-udp-write")
+			}
+		}
+	}
 	// (6) random mix
 	rounds = 300
 	if thorough {
@@ -406,6 +617,10 @@ func genUDP(rn *runner, r *vc.Rand, thorough bool) {
 		}
 		sizes := randSizes(r, eff)
 		nch := len(sizes)
-		rn.add(udpLine(utail, evs, ttail, r.Intn(4) == 0, tds, cut, junk, sizes, randSched(r, 'u', 't', ne+1, nch+1)), "udp:random")
+		sc := randSched(r, 'u', 't', ne+1, nch+1)
+		if i%3 == 1 {
+			sc = withHolds(r, sc, map[byte]byte{'u': 'U', 't': 'T'}, map[byte]byte{'u': 'w', 't': 'v'})
+		}
+		rn.add(udpLine(utail, evs, ttail, r.Intn(4) == 0, tds, cut, junk, sizes, sc), "udp:random")
 	}
 }
